@@ -273,6 +273,17 @@ fn flow_special(which_full: &str, seed: u64) -> Result<Outputs, String> {
                 out.push((format!("decisions(cancelling-pairs)/h={:?}", h), ds.into_bytes()));
             }
         }
+        "SCP" => {
+            // the public IPA helper on long challenge lists (2^8 .. 2^11 coefficients; odd: 2^9 and 2^12): sizes at which an
+            // implementation may expand the coefficients in parallel chunks
+            use ark_poly_commit::ipa_pc::SuccinctCheckPolynomial;
+            let rj = rho_stream::<FrJ>(seed, 77, 14);
+            for k in if odd { vec![9usize, 12] } else { vec![8usize, 10, 11] } {
+                let scp = SuccinctCheckPolynomial::<FrJ>(rj[..k].to_vec());
+                out.push((format!("coefficients/k={}", k), ser(&scp.compute_coeffs())));
+                out.push((format!("evaluation/k={}", k), ser(&scp.evaluate(rj[13]))));
+            }
+        }
         "MLP" => {
             let mut rng = seed_rng(seed, 10);
             let pp = Mlp::setup(mn, &mut rng);
@@ -326,9 +337,9 @@ fn sparse_poly<F: ark_ff::PrimeField>(seed: u64, d: usize) -> UP<F> {
     UP::<F>::from_coefficients_vec(c)
 }
 
-pub const ITEMS: [&str; 24] = [
+pub const ITEMS: [&str; 26] = [
     "MAR", "SON", "IPA", "PST", "HYR", "LIG", "MLL", "BRK", "KZG", "MLP", "STR", "MAR-odd", "SON-odd", "IPA-odd", "PST-odd", "HYR-odd", "LIG-odd", "MLL-odd", "BRK-odd", "KZG-odd", "MLP-odd",
-    "STR-odd", "KZGB", "KZGB-odd",
+    "STR-odd", "KZGB", "KZGB-odd", "SCP", "SCP-odd",
 ];
 
 pub fn run_item(item: &str, seed: u64) -> Result<Outputs, String> {
